@@ -4,13 +4,88 @@
 #include <cstdio>
 #include <cstdlib>
 #include <utility>
+#include <algorithm>
+#include <cstring>
+#include <random>
+#include <set>
+#include <string>
+#include <vector>
+
+#include "libcellml/component.h"
+#include "libcellml/model.h"
+#include "libcellml/variable.h"
 
 namespace libcellml {
 std::pair<uintptr_t, uintptr_t> verifEquivalentVariablesCacheKey(uintptr_t v1, uintptr_t v2);
 }
 
+// search <seed> <n>: random equivalence networks; every ordered pair, shuffled, asked twice, against independent reachability
+using namespace libcellml;
+static int searchMode(int argc, char **argv)
+{
+    std::mt19937 rng(argc > 2 ? unsigned(atol(argv[2])) : 0);
+    long n = argc > 3 ? atol(argv[3]) : 3000;
+    for (long t = 0; t < n; ++t) {
+        auto m = Model::create("m");
+        int nv = 2 + rng() % 6;
+        std::vector<VariablePtr> vars;
+        for (int i = 0; i < nv; ++i) {
+            auto c = Component::create("c" + std::to_string(i));
+            auto v = Variable::create("v" + std::to_string(i));
+            c->addVariable(v);
+            m->addComponent(c);
+            vars.push_back(v);
+        }
+        int ne = rng() % (2 * nv);
+        std::string edges;
+        for (int e = 0; e < ne; ++e) {
+            int a = rng() % nv, b = rng() % nv;
+            if (a != b) {
+                Variable::addEquivalence(vars[a], vars[b]);
+                edges += std::to_string(a) + "-" + std::to_string(b) + " ";
+            }
+        }
+        // independent reachability from the public equivalence lists
+        std::vector<std::vector<bool>> reach(nv, std::vector<bool>(nv, false));
+        for (int s = 0; s < nv; ++s) {
+            std::vector<int> st{s};
+            reach[s][s] = true;
+            while (!st.empty()) {
+                int x = st.back();
+                st.pop_back();
+                for (size_t j = 0; j < vars[x]->equivalentVariableCount(); ++j) {
+                    auto w = vars[x]->equivalentVariable(j);
+                    for (int y = 0; y < nv; ++y)
+                        if (vars[y] == w && !reach[s][y]) {
+                            reach[s][y] = true;
+                            st.push_back(y);
+                        }
+                }
+            }
+        }
+        // every ordered pair, in a random order, asked twice
+        std::vector<std::pair<int, int>> pairs;
+        for (int a = 0; a < nv; ++a)
+            for (int b = 0; b < nv; ++b) pairs.emplace_back(a, b);
+        std::shuffle(pairs.begin(), pairs.end(), rng);
+        for (int rep = 0; rep < 2; ++rep)
+            for (auto &p : pairs) {
+                bool got = vars[p.first]->hasEquivalentVariable(vars[p.second], true);
+                bool want = p.first != p.second && reach[p.first][p.second];
+                if (got != want) {
+                    printf("SEARCH violates=1 what=v%d->hasEquivalentVariable(v%d, true) is %s but the variables are %s by a chain of equivalences (%d variables, equivalences added: %s; network %ld)\n", p.first, p.second,
+                           got ? "true" : "false", want ? "linked" : "not linked", nv, edges.c_str(), t);
+                    return 0;
+                }
+            }
+    }
+    printf("SEARCH violates=0 networks=%ld\n", n);
+    return 0;
+}
+
 int main(int argc, char **argv)
 {
+    if (argc >= 2 && !strcmp(argv[1], "search")) return searchMode(argc, argv);
     if (argc < 5) {
         fprintf(stderr, "usage: a b c d\n");
         return 2;
